@@ -284,7 +284,11 @@ func (tr *Tracker) Idle(s *media.Stream, cid media.CID) bool {
 	tr.mu.Lock()
 	b, seen := tr.busy[cid], tr.seen[cid]
 	tr.mu.Unlock()
-	return seen && !b && media.VerifQueueLen(s, cid) <= 0
+	q := media.VerifQueueLen(s, cid)
+	if q < 0 {
+		return true // no longer attached: nothing left to deliver
+	}
+	return seen && !b && q <= 0
 }
 
 // WaitIdle polls until every listed consumer is idle; false when the bound is
